@@ -114,7 +114,7 @@ theorem statLike_quiet (fds : Fds) (m : Mem) (fd res sz : Nat) : Quiet (statLike
   split_all
   all_goals exact ⟨rfl, rfl⟩
 
-theorem seekLike_quiet (fds : Fds) (fd res : Nat) : Quiet (seekLike fds fd res) := by
+theorem seekLike_quiet (fds : Fds) (m : Mem) (fd res : Nat) : Quiet (seekLike fds m fd res) := by
   unfold seekLike
   split_all
   all_goals exact ⟨rfl, rfl⟩
@@ -363,7 +363,7 @@ theorem statLike_ne_panic (fds : Fds) (m : Mem) (fd res sz : Nat) : (statLike fd
   split_all
   all_goals simp [efault, ebadf]
 
-theorem seekLike_ne_panic (fds : Fds) (fd res : Nat) : (seekLike fds fd res).err ≠ Err.panic := by
+theorem seekLike_ne_panic (fds : Fds) (m : Mem) (fd res : Nat) : (seekLike fds m fd res).err ≠ Err.panic := by
   unfold seekLike
   split_all
   all_goals simp [ebadf]
@@ -399,8 +399,8 @@ theorem call1e_table (fixed : Bool) (h : Host) (fds : Fds) (m : Mem) (f : Fn1) (
   case fd_close => fs1_case hc (fdClose_table _ _)
   case fd_fdstat_get => fs1_case hc (quiet_table (statLike_quiet _ _ _ _ _))
   case fd_filestat_get => fs1_case hc (quiet_table (statLike_quiet _ _ _ _ _))
-  case fd_seek => fs1_case hc (quiet_table (seekLike_quiet _ _ _))
-  case fd_tell => fs1_case hc (quiet_table (seekLike_quiet _ _ _))
+  case fd_seek => fs1_case hc (quiet_table (seekLike_quiet _ _ _ _))
+  case fd_tell => fs1_case hc (quiet_table (seekLike_quiet _ _ _ _))
   case proc_exit => fs1_case hc (fun _ => rfl)
   case sched_yield => fs1_case hc (fun _ => rfl)
 
@@ -426,8 +426,8 @@ theorem call1e_alloc (fixed : Bool) (h : Host) (fds : Fds) (m : Mem) (f : Fn1) (
   case fd_close => fs1_case hc (fdClose_alloc _ _)
   case fd_fdstat_get => fs1_case hc (statLike_quiet _ _ _ _ _).2
   case fd_filestat_get => fs1_case hc (statLike_quiet _ _ _ _ _).2
-  case fd_seek => fs1_case hc (seekLike_quiet _ _ _).2
-  case fd_tell => fs1_case hc (seekLike_quiet _ _ _).2
+  case fd_seek => fs1_case hc (seekLike_quiet _ _ _ _).2
+  case fd_tell => fs1_case hc (seekLike_quiet _ _ _ _).2
   case proc_exit => fs1_case hc rfl
   case sched_yield => fs1_case hc rfl
 
